@@ -132,7 +132,8 @@ fn act_erased(body: &[u8]) -> EAct {
     let n = num("v");
     match o.get("op").and_then(|x| x.as_str()) {
         Some("ok") => EAct::Msg { ec: num("ec") as u32, qf: o.get("qf").and_then(|x| x.as_u64()).unwrap_or(1) as u16, bf: num("bf") as u16, q: vec![], b: format!("E{n}").into_bytes() },
-        Some("ownq") => EAct::Msg { ec: 0, qf: 1, bf: 3, q: format!("/own/{n}").into_bytes(), b: format!("Q{n}").into_bytes() },
+        // the handler's own response query, on a success and (with "ec") on an error response
+        Some("ownq") => EAct::Msg { ec: num("ec") as u32, qf: 1, bf: 3, q: format!("/own/{n}").into_bytes(), b: format!("Q{n}").into_bytes() },
         Some("err") => EAct::Err(RepeError::ServerError { code: CODES[num("code") as usize % CODES.len()], message: format!("srv{n}") }),
         Some("io") => EAct::Err(RepeError::Io(std::io::Error::other("boom"))),
         Some("ubf") => EAct::Err(RepeError::UnexpectedBodyFormat { expected: repe::BodyFormat::Json, got: 9 }),
@@ -295,7 +296,7 @@ fn build_router(sh: &Arc<Shared>, mw: bool) -> Router {
 
 struct Endpoint { sh: Arc<Shared>, addr: SocketAddr }
 struct Set { tcp: Endpoint, atcp: Endpoint, ws: Endpoint }
-struct World { plain: Set, mw: Set, sat: Endpoint, tcp_conns: Mutex<[Option<net::RawTcp>; 4]>, ws_conns: Mutex<[Option<net::RawWs>; 2]> }
+struct World { plain: Set, mw: Set, sat: Endpoint, slow: Endpoint, tcp_conns: Mutex<[Option<net::RawTcp>; 4]>, ws_conns: Mutex<[Option<net::RawWs>; 2]> }
 static WORLD: OnceLock<World> = OnceLock::new();
 fn world() -> &'static World {
     WORLD.get_or_init(|| {
@@ -310,7 +311,10 @@ fn world() -> &'static World {
         };
         let s = Shared::new();
         let sat = Endpoint { addr: net::start_ws(WebSocketServer::new(build_router(&s, false)).with_offreader_limit(1)), sh: s };
-        World { plain: mk(false), mw: mk(true), sat, tcp_conns: Mutex::new([None, None, None, None]), ws_conns: Mutex::new([None, None]) }
+        // an async TCP server with a read timeout, for requests that trickle in (`gap=`)
+        let s2 = Shared::new();
+        let slow = Endpoint { addr: net::start_async_rt(build_router(&s2, false), SLOW_READ_TIMEOUT), sh: s2 };
+        World { plain: mk(false), mw: mk(true), sat, slow, tcp_conns: Mutex::new([None, None, None, None]), ws_conns: Mutex::new([None, None]) }
     })
 }
 
@@ -510,11 +514,17 @@ fn tcp_send(slot: &mut Option<net::RawTcp>, addr: SocketAddr, frames: &[Vec<u8>]
     let c = tcp_conn(slot, addr)?;
     let mut all = Vec::new();
     for f in frames { all.extend_from_slice(f); }
-    if all.is_empty() { return Ok(()); }
+    // the first bytes of the next frame (the sync request) ride in the same write: the server has
+    // an incomplete frame buffered while it owes the responses of the complete ones
+    all.extend_from_slice(&sync_frame()[..SYNC_HEAD]);
     c.send(&all).map_err(|e| format!("send:{}", e.kind()))
 }
-/// Two phases.  (1) The pipeline was sent in one write with nothing behind it: every response it
-/// is owed (`expected` = the non-notify requests) must arrive without any further traffic.
+/// read timeout of the `gap=` server: every single gap is shorter, a whole trickled pipeline longer
+const SLOW_READ_TIMEOUT: Duration = Duration::from_millis(400);
+/// how much of the sync request is sent ahead, with the pipeline
+const SYNC_HEAD: usize = 20;
+/// Two phases.  (1) The pipeline was sent in one write with only the first bytes of a further frame
+/// behind it: every response it is owed (`expected` = the non-notify requests) must arrive without any further traffic.
 /// (2) Only then is the sync request sent; a response that shows up only now was withheld until
 /// more bytes arrived (reported as the note `withheld:<n>`).
 fn tcp_collect(slot: &mut Option<net::RawTcp>, expected: usize) -> TObs {
@@ -537,7 +547,7 @@ fn tcp_collect(slot: &mut Option<net::RawTcp>, expected: usize) -> TObs {
         }
     }
     let before = o.resps.len();
-    if let Err(e) = c.send(&sync_frame()) { o.note = Some(format!("send:{}", e.kind())); return o; }
+    if let Err(e) = c.send(&sync_frame()[SYNC_HEAD..]) { o.note = Some(format!("send:{}", e.kind())); return o; }
     let _ = c.s.set_read_timeout(Some(Duration::from_secs(8)));
     loop {
         match c.recv() {
@@ -592,7 +602,25 @@ fn run_case(line: &str) -> String {
         // --- send everything first
         let mut notes: Vec<String> = vec![];
         if use_tcp { set.tcp.sh.reset(); if let Err(e) = tcp_send(&mut tcp_slots[base], set.tcp.addr, &frames) { notes.push(format!("tcp-{e}")); } }
-        if use_atcp { set.atcp.sh.reset(); if let Err(e) = tcp_send(&mut tcp_slots[base + 1], set.atcp.addr, &frames) { notes.push(format!("atcp-{e}")); } }
+        // gap=<ms>: the frames trickle in one by one on a fresh connection to the server that has a
+        // read timeout (an idle timeout is per read: a steady trickle never trips it)
+        let gap = f.get("gap").map(|g| ph(g));
+        let atcp_ep = if gap.is_some() { &w.slow } else { &set.atcp };
+        let mut slow_slot: Option<net::RawTcp> = None;
+        if use_atcp {
+            atcp_ep.sh.reset();
+            match gap {
+                None => if let Err(e) = tcp_send(&mut tcp_slots[base + 1], atcp_ep.addr, &frames) { notes.push(format!("atcp-{e}")); },
+                Some(ms) => {
+                    let r = (|| -> Result<(), String> {
+                        let c = tcp_conn(&mut slow_slot, atcp_ep.addr)?;
+                        for fr in &frames { c.send(fr).map_err(|e| format!("send:{}", e.kind()))?; std::thread::sleep(Duration::from_millis(ms)); }
+                        c.send(&sync_frame()[..SYNC_HEAD]).map_err(|e| format!("send:{}", e.kind()))
+                    })();
+                    if let Err(e) = r { notes.push(format!("atcp-{e}")); }
+                }
+            }
+        }
         let mut sat_conn: Option<net::RawWs> = None;
         if use_ws {
             ws_ep.sh.reset();
@@ -605,7 +633,7 @@ fn run_case(line: &str) -> String {
         }
         // --- collect
         let mut t_tcp = if use_tcp { Some(tcp_collect(&mut tcp_slots[base], expected)) } else { None };
-        let mut t_atcp = if use_atcp { Some(tcp_collect(&mut tcp_slots[base + 1], expected)) } else { None };
+        let mut t_atcp = if use_atcp { Some(if gap.is_some() { tcp_collect(&mut slow_slot, expected) } else { tcp_collect(&mut tcp_slots[base + 1], expected) }) } else { None };
         let mut t_ws = None;
         if use_ws {
             let slot: &mut Option<net::RawWs> = if sat { &mut sat_conn } else { &mut ws_slots[if mw { 1 } else { 0 }] };
@@ -634,7 +662,7 @@ fn run_case(line: &str) -> String {
         // --- grace, then extras and counters
         std::thread::sleep(GRACE);
         if let Some(o) = t_tcp.as_mut() { tcp_extras(&mut tcp_slots[base], o); }
-        if let Some(o) = t_atcp.as_mut() { tcp_extras(&mut tcp_slots[base + 1], o); }
+        if let Some(o) = t_atcp.as_mut() { if gap.is_some() { tcp_extras(&mut slow_slot, o); } else { tcp_extras(&mut tcp_slots[base + 1], o); } }
         if let Some(o) = t_ws.as_mut() {
             let slot: &mut Option<net::RawWs> = if sat { &mut sat_conn } else { &mut ws_slots[if mw { 1 } else { 0 }] };
             let mut broken = !o.alive;
@@ -666,7 +694,7 @@ fn run_case(line: &str) -> String {
             }
         };
         emit("tcp", &t_tcp, &set.tcp.sh);
-        emit("atcp", &t_atcp, &set.atcp.sh);
+        emit("atcp", &t_atcp, &atcp_ep.sh);
         emit("ws", &t_ws, &ws_ep.sh);
         if !notes.is_empty() { out.push_str(&format!("notes={}", notes.join(","))); }
         out.trim_end().to_string()
@@ -711,7 +739,8 @@ fn erased_payload(rng: &mut Rng, allow_panic: bool) -> Value {
     let n = rng.below(1000);
     match rng.below(if allow_panic { 11 } else { 10 }) {
         0..=2 => json!({"op": "ok", "v": n, "bf": *rng.pick(&[0u64, 1, 2, 3, 0x1234]), "ec": *rng.pick(&[0u64, 0, 0, 7, 4100]), "qf": *rng.pick(&[1u64, 1, 0, 9])}),
-        3 | 4 => json!({"op": "ownq", "v": n}),
+        3 => json!({"op": "ownq", "v": n}),
+        4 => json!({"op": "ownq", "v": n, "ec": *rng.pick(&[0u64, 7, 9, 4100])}),
         5 | 6 => json!({"op": "err", "code": rng.below(11), "v": n}),
         7 => json!({"op": "io"}),
         8 => json!({"op": "ubf"}),
@@ -869,7 +898,19 @@ fn gen_cases(seed: u64, thorough: bool) -> Vec<String> {
         }
         cases.push((false, 4, true, reqs));
     }
-    cases.into_iter().enumerate().map(|(i, (mw, tr, sat, reqs))| case_line(i, mw, tr, sat, &reqs)).collect()
+    let mut lines: Vec<String> = cases.into_iter().enumerate().map(|(i, (mw, tr, sat, reqs))| case_line(i, mw, tr, sat, &reqs)).collect();
+    // a trickle of notifies (each gap shorter than the async server's read timeout, the whole run
+    // longer), then a request: every notify handler runs and the request is answered
+    for _ in 0..(if thorough { 6 } else { 2 }) {
+        let inline: Vec<usize> = (0..NROUTES).filter(|i| !ROUTES[*i].off).collect();
+        let n = rng.range(5, 7) as usize;
+        let mut reqs: Vec<Req> = (0..n).map(|_| { let rid = *rng.pick(&inline); let mut r = g.request(&mut rng, Some(rid), false); r.ntf = 1; r.ver = 1; r.qf = 1; r }).collect();
+        let rid = *rng.pick(&inline); let mut last = g.request(&mut rng, Some(rid), false); last.ntf = 0; last.ver = 1; last.qf = 1;
+        reqs.push(last);
+        let i = lines.len();
+        lines.push(format!("{} gap=78", case_line(i, false, 2, false, &reqs)));
+    }
+    lines
 }
 
 fn main() {
